@@ -3,6 +3,10 @@
 import json, subprocess, sys
 
 CHECKS = {
+ "C16": dict(cat="exploration", tech="offline checker over an event log with a global logical clock (hooks, handlers, shutdown, Serve), goroutine census, one-sided grace-period comparison, verif-hook directed schedule, race detector",
+   text="120/6000 scenarios put 1-16 (thorough: up to 128) connections into seeded states (idle, partial request, handler gated and released after Shutdown was called, handler waiting for its context, response blocked on a non-reading client, connect hook failing, request or Dial racing with Shutdown), call Shutdown and check the log: Serve returns ErrShutdown, nothing starts after Shutdown returned, no handler runs at that instant, every in-flight request is answered or cancelled no earlier than 2.9 s after Shutdown was called, terminate hook exactly once after the last handler for every successful connect hook and never for a failed one, listener closed, no library goroutine left; 16/400 grace scenarios take the full 3 s; 16/300 directed runs park the accept loop between Accept and wg.Add while Shutdown runs.",
+   note="Timings are sampled; the accept/count window is forced. The only wall-clock comparison is one-sided (cancellation not earlier than the grace period).", ref="§2 C16"),
+
  "C08": dict(cat="exploration", tech="offline history checker over per-connection event logs with unique ids (exactly once, in order), worker process as crash monitor, canary connection, goroutine census, verif-hook directed schedules, race detector",
    text="200/6000 histories of 1-16 (thorough: up to 256) concurrent scripted raw clients against a real kmipserver.Server on an in-memory listener with handlers that return ok / typed error / plain error / panic with six kinds of values / block until released / return 200 KiB; clients send whole, in pieces, pipelined, framed-undecodable (4 kinds), garbage, truncated, close while a handler runs, stop reading and close while a big response is written, half-close. Per connection the received id sequence must be a prefix of the sent one and complete when the client drained (verdict only when the server is quiescent); a canary connection is pinged throughout; census at quiescence; Shutdown must return; two directed schedules park the connection goroutine / write loop at the verif hooks while the client disconnects. A worker death with a library frame is a violation.",
    note="Schedules are sampled apart from the two forced windows. A connection the client half-closed may end short (not judged as unanswered).", ref="§2 C08"),
